@@ -90,6 +90,36 @@ class DictSub(dict):
     """dict subclass with an attribute: state + dictitems"""
 
 
+class DictHook(dict):
+    """dict subclass whose __setitem__ keeps derived data and whose __reduce__ hands the items over as dictitems (no state):
+    the items must be assigned one by one through __setitem__, as pickle's SETITEMS does"""
+    def __init__(self):
+        dict.__init__(self)
+        self.keys_set = []
+
+    def __setitem__(self, k, v):
+        dict.__setitem__(self, k, v)
+        self.keys_set = sorted(self.keys_set + [k])      # derived data, independent of the order of assignment
+
+    def __reduce__(self):
+        return (DictHook, (), None, None, iter(list(self.items())))
+
+
+class ListHook(list):
+    """list subclass whose extend() keeps derived data and whose __reduce__ hands the items over as listitems (no state)"""
+    def __init__(self):
+        list.__init__(self)
+        self.taken = 0
+
+    def extend(self, items):
+        items = list(items)
+        list.extend(self, items)
+        self.taken += len(items)
+
+    def __reduce__(self):
+        return (ListHook, (), None, iter(list(self)))
+
+
 class Color(enum.Enum):
     RED = 1
     BLUE = 2
